@@ -60,9 +60,29 @@ def gen_enum(rng):
     return {"mode": "enum", "rules": rules, "arrivals": [], "length": 4, "cleanup": rng.random() < 0.3}
 
 
+def gen_override_cleanup(rng):
+    """a specific-address rule (short interval) for ONE command next to generic rules (longer interval) for another:
+    the address's history for the other command lives in the same per-address entry and cleanup() must keep it
+    as long as the generic rule needs it"""
+    addr = rng.choice(ADDRS[:3])
+    short_u, long_u = rng.choice([("s", "m"), ("s", "h"), ("m", "h")])
+    n = rng.choice([1, 2, 3])
+    cmd_a, cmd_b = rng.sample(CMDS, 2)
+    rules = {addr: {cmd_a: "%d/%s" % (rng.choice([1, 5, -1]), short_u)},
+             rng.choice(["ip", "global"]): {cmd_b: "%d/%s" % (n, long_u)}}
+    S, L = UNITS[short_u], UNITS[long_u]
+    arrivals = [[0, addr, cmd_b] for _ in range(n)] + [[EPS, addr, cmd_a]]
+    arrivals += [[S + rng.choice([EPS, S, 2 * S]), "", "CLEANUP"]]
+    arrivals += [[EPS, addr, cmd_b] for _ in range(n + 1)]
+    arrivals += [[rng.choice([EPS, L / 3]), rng.choice(ADDRS), rng.choice(CMDS)] for _ in range(rng.randint(0, 6))]
+    return {"rules": rules, "arrivals": arrivals, "mode": "override-cleanup"}
+
+
 def gen(rng, knobs):
     if rng.random() < 0.06:
         return gen_enum(rng)
+    if rng.random() < 0.06:
+        return gen_override_cleanup(rng)
     rules = {}
     scopes = ["global", "ip"] + [a for a in ADDRS[:3] if rng.random() < 0.3]
     rng.shuffle(scopes)
@@ -75,7 +95,11 @@ def gen(rng, knobs):
                 for _ in range(k):
                     r = _rule(rng, allow_exempt=(sc not in ("global",)))
                     iv = UNITS[r.split("/")[1]]
-                    if iv not in seen_iv:      # one rule per interval: no contradictory specs
+                    # the same interval may be written twice (also in another spelling): every written rule
+                    # counts, so the stricter one decides; an exemption is never paired with a limit of its interval
+                    n_new = int(r.split("/")[0])
+                    clash = [x for x in rs if UNITS[x.split("/")[1]] == iv]
+                    if not clash or (n_new > 0 and all(int(x.split("/")[0]) > 0 for x in clash) and rng.random() < 0.6):
                         seen_iv.add(iv)
                         rs.append(r)
                 cmds[c] = ",".join(rs)
